@@ -416,7 +416,10 @@ class C13:
                                    .reshape(dv.shape) - dv) ** 2))
             except ValueError:
                 mg = mh = None
-            if mg is not None and mh > mg * (1 + 1e-9) + 1e-24:
+            # slack: relative 1e-9 plus rounding noise of the hologram itself
+            # (a fit started at the generating parameters has mg == 0)
+            floor = 1e-18 * float(np.sum(dv ** 2))
+            if mg is not None and mh > mg * (1 + 1e-9) + floor:
                 ex.add(violation(
                     'C13.monotone', ev['id'],
                     'misfit of the result %.6g is worse than the misfit of '
